@@ -27,7 +27,11 @@ def corpus():
         "run prop=C06 mode=constant rate=2/100ms dur=1500 conc=8 body=600 timeout=1000 setupcleanups=3",   # longer than the completion timeout
         "run prop=C06 mode=constant rate=3/100ms dur=500 conc=4 body=30 cancel=200",
         "run prop=C06 mode=constant rate=3/100ms dur=500 conc=4 setupfail=2",
-        "run prop=C06 mode=users conc=3 dur=300 body=20 maxit=10",
+        "run prop=C06 mode=users conc=3 dur=300 body=20 maxit=10 trackcleanup=1",
+        # iterations that outlive their config-file stage: each one's own cleanup runs once, after its own body
+        "run prop=C06 mode=file dur=3000 conc=1 file=c:250:1/250ms;c:250:1/250ms;c:250:1/250ms body=200 trackcleanup=1",
+        "run prop=C06 mode=file dur=3000 conc=2 file=c:250:4/250ms;u:200:2;c:200:2/100ms body=180 trackcleanup=1",
+        "run prop=C06 mode=constant rate=4/100ms dur=400 conc=3 body=30 failevery=2 trackcleanup=1",
     ]
 
 
@@ -36,8 +40,9 @@ def generate(rng, tier):
     out = [_scn.case(rng) for _ in range(n)]
     for _ in range({"quick": 4, "thorough": 60, "search": 10}[tier]):
         end = rng.choice(["", " cancel=%d" % rng.randint(50, 400), " maxit=%d" % rng.randint(1, 9), " setupfail=%d" % rng.choice([1, 2])])
-        mode = rng.choice(["mode=constant rate=%d/100ms" % rng.randint(1, 5), "mode=users", "mode=file file=c:200:3/100ms;u:150:2"])
-        out.append("run prop=C06 %s dur=%d conc=%d body=%d setupcleanups=%d%s" % (
+        mode = rng.choice(["mode=constant rate=%d/100ms" % rng.randint(1, 5), "mode=users", "mode=file file=c:200:3/100ms;u:150:2",
+                           "mode=file file=c:250:%d/250ms;c:250:2/250ms;u:150:2" % rng.randint(1, 3)])
+        out.append("run prop=C06 %s dur=%d conc=%d body=%d setupcleanups=%d trackcleanup=1%s" % (
             mode, rng.choice([300, 500]) if "file" not in mode else 3000, rng.choice([1, 4]), rng.choice([0, 20, 120]), rng.randint(0, 4), end))
     return out
 
